@@ -165,6 +165,8 @@ def rule_noshadow(ctx: Ctx):
         for m in ms:
             if m.name in ("__repr__", "__str__", "_repr_html_", "_repr_svg_", "_graph"):
                 continue
+            if ctx.is_new(m):
+                continue  # a helper method introduced later: seen through inlining at its call sites
             seen = set()
             for p in ctx.paths(m, inline=None, exc_edges="none", unroll=1):
                 for e in p.of("store"):
